@@ -892,7 +892,8 @@ impl<'a> Ctx<'a> {
                                 match self.classify(fail) {
                                     Ok(key) => *local.3.entry(key).or_default() += 1,
                                     Err(fail) => {
-                                        if local.4.len() < 3 {
+                                        // keep the earliest case of every distinct key
+                                        if !local.4.iter().any(|(_, f)| f.key == fail.key) && local.4.len() < 64 {
                                             local.4.push((i, fail));
                                         }
                                     }
@@ -925,7 +926,7 @@ impl<'a> Ctx<'a> {
         // Distinct keys only, earliest (smallest index) case first.
         let mut seen = HashSet::new();
         for (i, fail) in m.4 {
-            if seen.insert(fail.key.clone()) && report.failures.len() < 3 {
+            if seen.insert(fail.key.clone()) && report.failures.len() < 24 {
                 let path = write_replay(self.cfg.property, name, &cases[i], &fail.key, &fail.msg);
                 report.failures.push(Failure {
                     key: fail.key,
